@@ -1039,7 +1039,7 @@ func (sp *Specs) LoadFile(path, pkgRel string) error {
 			curTable.Facts = append(curTable.Facts, &Clause{Kind: "fact", Tags: tags, Expr: e, Text: r, Label: label})
 		case "func", "iface", "extern":
 			key := rest
-			if kw != "extern" && !strings.Contains(strings.SplitN(key, "(", 2)[0], "/") && !strings.HasPrefix(key, pkgRel+".") {
+			if kw != "extern" && pkgRel != "" && !strings.HasPrefix(key, "functype ") && !strings.Contains(strings.SplitN(key, "(", 2)[0], "/") && !strings.HasPrefix(key, pkgRel+".") {
 				key = pkgRel + "." + key
 			}
 			cur = &FuncSpec{Key: key, Loops: map[int]*LoopSpec{}, File: path, Pkg: pkgRel, IsIface: kw == "iface", IsExt: kw == "extern", Opts: map[string]string{}}
